@@ -1,6 +1,10 @@
 (* C07 - the component tree stays a consistent forest under register/unregister.
    Only statements here; proofs live in Proofs/KTreeP.v, the model in Model/KTree.v.
-   A history is a list of ops (OReg c p | OUnreg c | OFire x i | OTick r schedules | OFlush x schedule);
+   A history is a list of ops (OReg c p | OUnreg c | OFire x i | OTick r schedules | OFlush x schedule); a
+   schedule lists, in dispatch order, the events of the batch, each with the operations (AReg / AUnreg / AFire)
+   that the handlers of its receivers performed while handling it (events of kind probe, registered,
+   unregistered, prepare_unregister; what a handler of prepare_unregister - or of one of its effects - fires
+   delays prepare_unregister_complete, see efx in the model);
    [run n h init = Ok s] says that every op satisfied the preconditions of the property's quantifier
    (register: c detached, not pending, p outside c's subtree; unregister: c attached; tick: r is a root),
    that every schedule was a permutation of the batch it dispatched, and that the model neither ran out of
@@ -29,9 +33,10 @@ Print Assumptions C07_pending_attached.
 
 (* each completed registration / unregistration has been announced by exactly one event: the
    registered(c,p) events still queued anywhere in the pool plus those dispatched so far are as many as the
-   register(c,p) ops of the history; likewise unregistered(c,p) and the completed unregistrations *)
+   completed registrations of c under p - by the history or by handlers; [regd] is extended by [register] and
+   by nothing else - likewise unregistered(c,p) and the completed unregistrations *)
 Theorem C07_announce_registered : forall n h s c p, run n h init = Ok s ->
-  qcount n (q s) (Registered c p) + dcount (disp s) (Registered c p) = count_reg c p h.
+  qcount n (q s) (Registered c p) + dcount (disp s) (Registered c p) = cntp c p (regd s).
 Proof. exact run_announce_registered. Qed.
 Print Assumptions C07_announce_registered.
 
@@ -51,9 +56,10 @@ Proof. exact run_register_queue. Qed.
 Print Assumptions C07_queue_migrates.
 
 (* ... and a flush of that root dispatches exactly what is queued there (each event once, by that root) *)
-Theorem C07_flush_dispatches_batch : forall n r sched s s', flush n r sched s = Ok s' ->
-  Permutation sched (q s r) /\
-  exists ds, disp s' = ds ++ disp s /\ map d_ev (rev ds) = sched /\ (forall d, In d ds -> d_root d = r).
+Theorem C07_flush_dispatches_batch : forall n h s r sched s', run n h init = Ok s -> par s r = r -> r < n ->
+  flush n r sched s = Ok s' ->
+  Permutation (map fst sched) (q s r) /\
+  exists ds, disp s' = ds ++ disp s /\ map d_ev (rev ds) = map fst sched /\ (forall d, In d ds -> d_root d = r).
 Proof. exact flush_dispatches_batch. Qed.
 Print Assumptions C07_flush_dispatches_batch.
 
@@ -88,15 +94,17 @@ Print Assumptions C07_move_connected.
 (* [valid n h init]: every op of h satisfies the property's preconditions in the state it is applied to
    (op_pre: register(c,p) with c in the pool, detached, not pending, p in the pool and not in c's subtree;
    unregister(c) with c attached; fire on a pool component; ticks of a current root; flush() on a pool
-   component) and every flush dispatches its batch in some order (op_sched: the schedule is a permutation of
-   what is queued).  Such a history runs to Ok: the model never crashes (delattr of a missing flag, set.remove
+   component), every flush dispatches its batch in some order (flush_pre: the schedule is a permutation of
+   what is queued) and every operation a handler performs while an event is dispatched satisfies the same
+   preconditions at that moment and does not register the root that is flushing (act_pre, item_pre).
+   Such a history runs to Ok: the model never crashes (delattr of a missing flag, set.remove
    of a missing child) and the fuel n+1 of the _updateRoot recursion is never exhausted (parent links
    decrease a rank, so a descending path has at most n nodes). *)
 Theorem C07_run_ok : forall n h, valid n h init -> exists s, run n h init = Ok s.
 Proof. exact run_ok. Qed.
 Print Assumptions C07_run_ok.
 
-(* and for EVERY history and every schedule, valid or not, the outcome is never Crash and never OutOfFuel
+(* and for EVERY history, every schedule and whatever the handlers do, valid or not, the outcome is never Crash and never OutOfFuel
    (it is Ok, or the model's explicit PreViolated / BadSched verdict on the hypotheses) *)
 Theorem C07_never_crashes : forall n h, run n h init <> Crash /\ run n h init <> OutOfFuel.
 Proof. exact run_safe. Qed.
@@ -114,7 +122,7 @@ Print Assumptions C07_pending_attached_valid.
 
 Theorem C07_announce_valid : forall n h, valid n h init ->
   exists s, run n h init = Ok s /\
-    forall c p, qcount n (q s) (Registered c p) + dcount (disp s) (Registered c p) = count_reg c p h /\
+    forall c p, qcount n (q s) (Registered c p) + dcount (disp s) (Registered c p) = cntp c p (regd s) /\
                 qcount n (q s) (Unregistered c p) + dcount (disp s) (Unregistered c p) = cntp c p (unregd s).
 Proof. exact valid_announce. Qed.
 Print Assumptions C07_announce_valid.
@@ -154,8 +162,9 @@ Print Assumptions C07_detach_valid.
 (* a flush at the end of a valid history succeeds and dispatches exactly its batch *)
 Theorem C07_flush_valid : forall n h x sched, valid n (h ++ [OFlush x sched]) init ->
   exists s s', run n h init = Ok s /\ flush n (rt s x) sched s = Ok s' /\
-    Permutation sched (q s (rt s x)) /\
-    exists ds, disp s' = ds ++ disp s /\ map d_ev (rev ds) = sched /\ (forall d, In d ds -> d_root d = rt s x).
+    Permutation (map fst sched) (q s (rt s x)) /\
+    exists ds, disp s' = ds ++ disp s /\ map d_ev (rev ds) = map fst sched /\
+               (forall d, In d ds -> d_root d = rt s x).
 Proof. exact valid_flush. Qed.
 Print Assumptions C07_flush_valid.
 
@@ -163,11 +172,13 @@ Print Assumptions C07_flush_valid.
 
 (* 2 under 1 under 0; events queued on 3 before it is registered under 2; 1 is unregistered with its subtree
    and re-registered under 4 *)
+Definition quiet (l : list ev) : list item := map (fun e => (e, [])) l.
+
 Definition ex_hist : list op :=
   [OReg 1 0; OReg 2 1; OFire 3 7; OReg 3 2;
-   OTick 0 [[Registered 1 0; Registered 2 1; Probe 7; Registered 3 2]];
-   OUnreg 1; OTick 0 [[PrepUnreg 1]; [PrepDone 1]; [Unregistered 1 0]];
-   OReg 1 4; OFire 3 8; OTick 4 [[Registered 1 4; Probe 8]]].
+   OTick 0 [quiet [Registered 1 0; Registered 2 1; Probe 7; Registered 3 2]];
+   OUnreg 1; OTick 0 [quiet [PrepUnreg 1]; quiet [PrepDone 1]; quiet [Unregistered 1 0]];
+   OReg 1 4; OFire 3 8; OTick 4 [quiet [Registered 1 4; Probe 8]]].
 
 Example C07_ex_run :
   match run 5 ex_hist init with
@@ -178,13 +189,42 @@ Example C07_ex_run :
   end.
 Proof. vm_compute. reflexivity. Qed.
 
+(* handlers that act: while the root 0 dispatches registered(1,0), the handler of 1 registers 2 under itself
+   and unregisters itself, the handler of 0 fires; the subtree {1,2} is then detached as a whole *)
+Example C07_ex_handlers :
+  match run 3 [OReg 1 0;
+               OTick 0 [[(Registered 1 0, [(0, [AFire 0 9]); (1, [AReg 2 1; AUnreg 1])])];
+                        quiet [Probe 9; Registered 2 1; PrepUnreg 1]; quiet [PrepDone 1];
+                        quiet [Unregistered 1 0]]] init with
+  | Ok s => (map (par s) [0;1;2], map (rt s) [0;1;2], map d_recv (rev (disp s)), regd s, unregd s)
+            = ([0;1;1], [0;1;1], [[0;1]; [0;1;2]; [0;1;2]; [0;1;2]; [0;1;2]; [0]], [(2,1); (1,0)], [(1,0)])
+  | _ => False
+  end.
+Proof. vm_compute. reflexivity. Qed.
+
+(* a handler of prepare_unregister(1) fires: the probe is an effect of the prepare_unregister event, whose
+   completion event - and with it the detaching of 1 - waits until the probe has been dispatched *)
+Example C07_ex_delayed_completion :
+  match run 2 [OReg 1 0; OTick 0 [quiet [Registered 1 0]]; OUnreg 1;
+               OTick 0 [[(PrepUnreg 1, [(0, [AFire 0 7])])]; quiet [Probe 7]; quiet [PrepDone 1]]] init with
+  | Ok s => (par s 1, pend s 1, q s 0, map d_ev (rev (disp s)))
+            = (1, false, [Unregistered 1 0], [Registered 1 0; PrepUnreg 1; Probe 7; PrepDone 1])
+  | _ => False
+  end.
+Proof. vm_compute. reflexivity. Qed.
+
+(* a handler that tries to register the root whose flush is in progress is outside the preconditions *)
+Example C07_ex_flushing_root :
+  run 3 [OReg 1 0; OTick 0 [[(Registered 1 0, [(1, [AReg 0 2])])]]] init = PreViolated.
+Proof. vm_compute. reflexivity. Qed.
+
 (* observed on the real code and reproduced here (outside the statement, no alarm): parent 1 and then its
    child 2 are unregistered before any tick; 1 completes first, the completion event of 2 is dispatched by
    the old root, which no longer contains 2; 2 stays pending for ever - and the forest is still consistent *)
 Example C07_ex_pending_for_ever :
   match run 3 [OReg 1 0; OReg 2 1; OUnreg 1; OUnreg 2;
-               OTick 0 [[Registered 1 0; Registered 2 1; PrepUnreg 1; PrepUnreg 2];
-                        [PrepDone 1; PrepDone 2]; [Unregistered 1 0]; []]] init with
+               OTick 0 [quiet [Registered 1 0; Registered 2 1; PrepUnreg 1; PrepUnreg 2];
+                        quiet [PrepDone 1; PrepDone 2]; quiet [Unregistered 1 0]; []]] init with
   | Ok s => (pend s 2, par s 2, rt s 2, par s 1, q s 0, q s 1) = (true, 1, 1, 1, [], [])
   | _ => False
   end.
@@ -198,6 +238,6 @@ Example C07_ex_complete :
   end.
 Proof. vm_compute. reflexivity. Qed.
 
-(* the validity hypothesis is satisfiable by the histories of the examples above *)
-Example C07_ex_valid : exists s, run 5 ex_hist init = Ok s.
-Proof. vm_compute. eexists. reflexivity. Qed.
+(* the hypothesis [valid] is satisfiable, also with a handler that acts *)
+Example C07_ex_valid : valid 2 [OReg 1 0; OFlush 0 [(Registered 1 0, [(0, [AFire 1 5])])]] init.
+Proof. exact ex_valid. Qed.
